@@ -92,6 +92,10 @@ func NewComponents(spec openapi3.Components, opts SchemaOptions) (zero Component
 	pathParameters := make(openapi3.ParametersMap)
 	cookieParameters := make(openapi3.ParametersMap)
 	for k, v := range spec.Parameters {
+		if v == nil || v.Value == nil {
+			// an entry the loader could not resolve (a $ref that leads back to itself)
+			return zero, fmt.Errorf("parameter component %q: is empty or refers to itself", k)
+		}
 		switch v.Value.In {
 		case "query":
 			queryParameters[k] = v
